@@ -265,8 +265,29 @@ func ClassifyRead(ci ssa.CallInstruction) ReadSite {
 		rs.Detail = "io.ReadFull"
 		return rs
 	case c.Is("io:ReadAtLeast"):
-		rs.Shape, rs.Reader = "full", Arg(ci, 0)
-		rs.Detail = "io.ReadAtLeast"
+		// full only when min is the length of the buffer (len(buf), the value it was
+		// made with, or the same constant); ReadAtLeast(r, buf, 1) is a single read.
+		rs.Reader = Arg(ci, 0)
+		buf, min := Arg(ci, 1), stripValue(Arg(ci, 2))
+		lv, k := bufLen(buf)
+		_, rs.Width = lv, k
+		full := false
+		if c, ok := ConstInt(min); ok && k >= 0 && c == k {
+			full = true
+		}
+		if lv != nil && sameExpr(min, lv) {
+			full = true
+		}
+		if lc, ok := min.(*ssa.Call); ok {
+			if b, ok := lc.Call.Value.(*ssa.Builtin); ok && b.Name() == "len" && sameExpr(lc.Call.Args[0], buf) {
+				full = true
+			}
+		}
+		if full {
+			rs.Shape, rs.Detail = "full", "io.ReadAtLeast(min = len(buf))"
+		} else {
+			rs.Shape, rs.Detail = "single", "io.ReadAtLeast with min below the buffer length"
+		}
 		return rs
 	case isReadMethod(ci):
 		rs.Reader = Recv(ci)
